@@ -154,7 +154,13 @@ fn check_loaded(s: &mut Suite, what: &str, doc: &Doc, k: &KeyPair) {
 	// a signature made by the reloaded key verifies under the original public key
 	let mut p = PCert::default_like();
 	p.serial = Some(vec![1]);
-	if let Ok(cert) = p.real().unwrap().self_signed(k) {
+	let signed = std::panic::catch_unwind(std::panic::AssertUnwindSafe(|| p.real().unwrap().self_signed(k)));
+	match &signed {
+		Err(_) => s.rep.violate("C11:signing-panics", "a key that loaded panics when it signs", format!("{} origin={} fmt={} kty={} public key of {} octets\n{}", what, doc.origin, doc.fmt, doc.kty, doc.public.len(), crate::last_panic())),
+		Ok(Err(e)) => s.rep.violate("C11:signing-fails", "a key that loaded cannot sign", format!("{} origin={} fmt={} kty={} error={:?}", what, doc.origin, doc.fmt, doc.kty, e)),
+		Ok(Ok(_)) => {},
+	}
+	if let Ok(Ok(cert)) = signed {
 		let (tbs, _, sig) = crate::der::split_signed(cert.der()).unwrap();
 		let ok = match keys::ring_verify(k.algorithm(), &doc.public, &tbs, &sig) {
 			Some(v) => v,
